@@ -9,6 +9,8 @@ from vlib.gen import make_r_sub, r_retself, make_r_tailbind
 
 F = "src/query/insert.rs"
 P = ["C10"]
+# the builder calls that accept rows / a source query also carry C08 and C01: what they accept is what the renderer is given
+PV = ["C10", "C08", "C01"]
 OPAQUE = ["SimpleExpr", "DynIden", "TableRef", "OnConflict", "ReturningClause", "WithClause", "SelectExpr"]
 r_vis = make_r_sub("R-vis", r"pub\(crate\) ", "pub ", min_count=0)
 
@@ -53,7 +55,7 @@ def build(u):
     u.emit("impl InsertStatement {\n")
     u.fn(F, "impl InsertStatement", "new", ret="r", props=P, rules=[make_r_sub("R-attr", r"Self::default\(\)", "vdefault_insert()")],
          spec="ensures r.columns@.len() == 0, r.source is None, r.default_values is None, rect(r),")
-    u.fn(F, "impl InsertStatement", "values", ret="r", props=P,
+    u.fn(F, "impl InsertStatement", "values", ret="r", props=PV,
          rules=[make_r_sub("R-collect", r"values<I>\(&mut self, values: I\)", "values(&mut self, values: Vec<SimpleExpr>)"),
                 make_r_sub("R-collect", r"where\s+I: IntoIterator<Item = SimpleExpr>,", ""),
                 make_r_sub("R-collect", r"let values = values\.into_iter\(\)\.collect::<Vec<SimpleExpr>>\(\);", ""),
@@ -69,7 +71,7 @@ ensures
         && final(self).source is Some && final(self).source->Some_0 is Values,
     r is Ok && values@.len() == 0 ==> *final(self) == *old(self),
     rect(*final(self)),""")
-    u.fn(F, "impl InsertStatement", "values_panic", props=P,
+    u.fn(F, "impl InsertStatement", "values_panic", props=PV,
          rules=[make_r_sub("R-collect", r"values_panic<I>\(&mut self, values: I\)", "values_panic(&mut self, values: Vec<SimpleExpr>)"),
                 make_r_sub("R-collect", r"where\s+I: IntoIterator<Item = SimpleExpr>,", ""),
                 make_r_sub("R-retself", r" -> &mut Self", ""), make_r_sub("R-retself", r"self\.values\(values\)\.unwrap\(\)", "self.values(values).unwrap();")],
@@ -79,7 +81,7 @@ ensures
     values@.len() == 0 ==> *final(self) == *old(self),
     rect(*final(self)),""")
     # values_from_panic: every row of the iterator goes through values_panic (i.e. is checked), in order
-    u.fn(F, "impl InsertStatement", "values_from_panic", props=P,
+    u.fn(F, "impl InsertStatement", "values_from_panic", props=PV,
          rules=[make_r_sub("R-collect", r"values_from_panic<I>\(&mut self, values_iter: impl IntoIterator<Item = I>\)", "values_from_panic(&mut self, values_iter: Vec<Vec<SimpleExpr>>)"),
                 make_r_sub("R-collect", r"where\s+I: IntoIterator<Item = SimpleExpr>,", ""),
                 # R-fold (by-value form): `c.into_iter().for_each(|x| { BODY });` is `for x in c { BODY }`
@@ -103,7 +105,7 @@ ensures
          proofs={"body-start": "let ghost s0 = *self;\nproof { assert(rows_of(s0) + values_iter@.subrange(0, 0) =~= rows_of(s0)); }",
                  "loop1-end": "proof { assert(values_iter@.subrange(0, itv.index@ + 1) =~= values_iter@.subrange(0, itv.index@ as int).push(values)); assert(rows_of(s0) + values_iter@.subrange(0, itv.index@ as int).push(values) =~= (rows_of(s0) + values_iter@.subrange(0, itv.index@ as int)).push(values)); }",
                  "body-end": "proof { assert(values_iter@.subrange(0, values_iter@.len() as int) =~= values_iter@); }"})
-    u.fn(F, "impl InsertStatement", "select_from", ret="r", props=P,
+    u.fn(F, "impl InsertStatement", "select_from", ret="r", props=PV,
          rules=[make_r_sub("R-into", r"select_from<S>\(&mut self, select: S\)", "select_from(&mut self, select: SelectStatement)"),
                 make_r_sub("R-into", r"where\s+S: Into<SelectStatement>,", ""), make_r_sub("R-into", r"select\.into\(\)", "select"),
                 make_r_sub("R-retself", r"-> Result<&mut Self>", "-> Result<()>"), make_r_sub("R-retself", r"Ok\(self\)", "Ok(())")],
@@ -113,11 +115,11 @@ ensures
     r is Ok ==> same_but_rows(*final(self), *old(self)) && final(self).source == Some(InsertValueSource::Select(Box::new(select))),
     r is Ok ==> rect(*final(self)),""")
     for nm, n in [("or_default_values", "1"), ("or_default_values_many", "num_rows")]:
-        u.fn(F, "impl InsertStatement", nm, props=P, rules=[r_retself],
+        u.fn(F, "impl InsertStatement", nm, props=PV, rules=[r_retself],
              spec="ensures final(self).default_values == Some(%s as u32), final(self).source == old(self).source, final(self).columns == old(self).columns,\n    rect(*old(self)) ==> rect(*final(self))," % n)
     # columns(): replaces the declared column list.  R-collect / R-into: `cols.into_iter().map(|c| c.into_iden()).collect()` is
     # the list of converted identifiers, in order (trusted)
-    u.fn(F, "impl InsertStatement", "columns", props=P,
+    u.fn(F, "impl InsertStatement", "columns", props=PV,
          rules=[make_r_sub("R-collect", r"columns<C, I>\(&mut self, columns: I\)", "columns(&mut self, columns: Vec<DynIden>)"),
                 make_r_sub("R-collect", r"where\s+C: IntoIden,\s+I: IntoIterator<Item = C>,", ""),
                 make_r_sub("R-collect", r"columns\.into_iter\(\)\.map\(\|c\| c\.into_iden\(\)\)\.collect\(\)", "columns"), r_retself],
@@ -126,8 +128,8 @@ ensures
     final(self).columns@ == columns@, final(self).source == old(self).source, final(self).default_values == old(self).default_values,
     final(self).replace == old(self).replace, final(self).table == old(self).table, final(self).on_conflict == old(self).on_conflict,
     final(self).returning == old(self).returning, final(self).with == old(self).with,
-    // declared before any row / SELECT source exists, the statement stays rectangular""", P),
-               ("    old(self).source is None ==> rect(*final(self)),", P),
+    // declared before any row / SELECT source exists, the statement stays rectangular""", PV),
+               ("    old(self).source is None ==> rect(*final(self)),", PV),
                ("    // C10 `consequently every rendered INSERT has a rectangular VALUES list matching its columns`, for EVERY call history\n    rect(*final(self)),", P)])
     u.emit("}\n")
     u.emit("} // verus!\nfn main() {}\n")
